@@ -37,7 +37,7 @@ def shapes():
 OPS = ["jacobian", "grad", "elementwise_grad", "hessian", "make_hvp", "hessian_tensor_product", "tensor_jacobian_product", "make_ggnvp",
        "make_ggnvp-g", "make_jvp", "deriv", "make_jvp_reversemode", "value_and_grad", "grad_and_aux", "grad_named", "make_vjp", "holomorphic_grad",
        "hessian_vector_product", "vector_jacobian_product"]
-LAYOUTS = ["pos0", "pos1", "pos2", "kwargs", "tuple-argnum", "list-argnum", "tuple1-argnum", "list1-argnum"]
+LAYOUTS = ["pos0", "pos1", "pos2", "kwargs", "tuple-argnum", "list-argnum", "tuple1-argnum", "list1-argnum", "neg1", "neg2", "neg1-varargs"]
 
 
 def ops_factory(quick, seed):
@@ -86,6 +86,12 @@ def ops_factory(quick, seed):
             fun, args, argnum, kw = (lambda a, xx, b: core(xx) * a / 1.7 + 0.0 * np.sum(b)), (a_extra, x, b_extra), 1, {}
         elif layout == "pos2":
             fun, args, argnum, kw = (lambda a, b, xx: core(xx) + 0.0 * a), (a_extra, b_extra, x), 2, {}
+        elif layout == "neg1":       # positions counted from the end
+            fun, args, argnum, kw = (lambda a, b, xx: core(xx) + 0.0 * a), (a_extra, b_extra, x), -1, {}
+        elif layout == "neg2":
+            fun, args, argnum, kw = (lambda a, xx, b: core(xx) * a / 1.7 + 0.0 * np.sum(b)), (a_extra, x, b_extra), -2, {}
+        elif layout == "neg1-varargs":
+            fun, args, argnum, kw = (lambda *aa: core(aa[-1]) + 0.0 * aa[0] + (7.0 if len(aa) != 3 else 0.0)), (a_extra, b_extra, x), -1, {}
         elif layout == "kwargs":
             scale = 2.5
             fun, args, argnum, kw = (lambda xx, pad, scale=1.0: core(xx, scale) + 0.0 * pad), (x, 0.5), 0, dict(scale=2.5)
@@ -178,6 +184,8 @@ def ops_factory(quick, seed):
                     hvp, g = ag.make_hvp(fun, argnum)(*args, **kw)
                     got = (hvp(v_in), g)
                     want = ((Hm[0] @ onp.asarray(v_in).reshape(-1)).reshape(I), J.reshape(I))
+                elif op in ("hessian_tensor_product", "hessian_vector_product", "tensor_jacobian_product", "vector_jacobian_product") and layout.startswith("neg"):
+                    raise Skip("these operators take the vector as an extra trailing argument: a position counted from the end is ambiguous")
                 elif op in ("hessian_tensor_product", "hessian_vector_product"):
                     if not scalar_out:
                         must_raise = True
@@ -330,6 +338,36 @@ def misc_factory(quick, seed):
         return (min(res), max(res), reused > 0)
 
     PASS.append(("grad_named follows the function it is given (fresh functions reuse addresses of collected ones)", named_after_collected, (12.0, 12.0, True)))
+
+    # operator OBJECTS are reusable: results obtained from one call are not disturbed by a later call of the same operator object
+    def _reuse(mk, finish):
+        def thunk():
+            f = lambda a, x, scale=1.0: scale * a * np.sin(x) * x
+            op = mk(f)
+            r1 = op(2.0, 0.7, scale=2.0)
+            r2 = op(-3.0, 1.9, scale=-0.5)
+            return (finish(r1), finish(r2))
+        return thunk
+    d_ = lambda a, x, s_: s_ * a * (onp.cos(x) * x + onp.sin(x))
+    v_ = lambda a, x, s_: s_ * a * onp.sin(x) * x
+    PASS.append(("make_jvp operator object called twice, first result evaluated last", _reuse(lambda f: ag.make_jvp(f, 1), lambda j: tuple(float(t) for t in j(1.0))),
+                 ((v_(2.0, 0.7, 2.0), d_(2.0, 0.7, 2.0)), (v_(-3.0, 1.9, -0.5), d_(-3.0, 1.9, -0.5)))))
+    PASS.append(("make_vjp operator object called twice, first result evaluated last", _reuse(lambda f: ag.make_vjp(f, 1), lambda r: (float(r[1]), float(r[0](1.0)))),
+                 ((v_(2.0, 0.7, 2.0), d_(2.0, 0.7, 2.0)), (v_(-3.0, 1.9, -0.5), d_(-3.0, 1.9, -0.5)))))
+    PASS.append(("grad operator object called twice", _reuse(lambda f: ag.grad(f, 1), float), (d_(2.0, 0.7, 2.0), d_(-3.0, 1.9, -0.5))))
+    PASS.append(("make_hvp operator object called twice, first result evaluated last",
+                 _reuse(lambda f: ag.make_hvp(f, 1), lambda r: float(r[1])), (d_(2.0, 0.7, 2.0), d_(-3.0, 1.9, -0.5))))
+    # the value handed back by an inner operator is differentiable by the enclosing one even when the inner function ignores its own variable
+    PASS.append(("outer grad through value_and_grad's value, inner function ignores its own variable",
+                 lambda: ag.grad(lambda x: ag.value_and_grad(lambda y: np.sum(x ** 3))(2.0)[0])(onp.array([1.0, 2.0])), onp.array([3.0, 12.0])))
+    PASS.append(("outer grad through make_vjp's primal, inner function ignores its own variable",
+                 lambda: ag.grad(lambda x: np.sum(ag.make_vjp(lambda y: x ** 3)(2.0)[1]))(onp.array([1.0, 2.0])), onp.array([3.0, 12.0])))
+    PASS.append(("outer grad through make_jvp's primal, inner function ignores its own variable",
+                 lambda: ag.grad(lambda x: np.sum(ag.make_jvp(lambda y: x ** 3)(2.0)(1.0)[0]))(onp.array([1.0, 2.0])), onp.array([3.0, 12.0])))
+    PASS.append(("outer deriv through value_and_grad's value, inner function ignores its own variable",
+                 lambda: ag.deriv(lambda x: ag.value_and_grad(lambda y: x ** 3)(2.0)[0])(2.0), 12.0))
+    PASS.append(("three levels: grad of grad through the primal of make_jvp of a function of the two outer variables",
+                 lambda: ag.grad(lambda x: ag.grad(lambda y: ag.make_jvp(lambda z: x * x * y * y * y)(1.0)(1.0)[0])(2.0))(3.0), 2 * 3.0 * 3 * 4.0))
 
     def h(ch):
         kind = ch.choose("kind", ["must-raise", "pass-through"])
